@@ -67,7 +67,8 @@ static int run_script_for_rstack(struct uftrace_data *handle, struct uftrace_tas
 		sc_ctx.address = rstack->addr;
 		sc_ctx.name = symname;
 
-		if (tr.flags & TRIGGER_FL_ARGUMENT && opts->show_args) {
+		/* the record carries the arguments or task->args still holds those of an earlier record */
+		if (rstack->more && tr.flags & TRIGGER_FL_ARGUMENT && opts->show_args) {
 			sc_ctx.argbuf = task->args.data;
 			sc_ctx.arglen = task->args.len;
 			sc_ctx.argspec = task->args.args;
